@@ -575,7 +575,7 @@ func c16Synthetic(e *c16Env) {
 	ck := app.TIBCKeeper.ClientKeeper
 	pk := app.TIBCKeeper.PacketKeeper
 	rk := app.TIBCKeeper.RoutingKeeper
-	n := tierN(150, 4000)
+	n := tierN(100, 4000)
 	bscCS, bscCo, _ := c16BscFixture(e)
 	ethCS, ethCo, _ := c16EthFixture(12031)
 	for i := 0; i < n; i++ {
